@@ -72,18 +72,15 @@ def gen_cases(rng, tier):
     cases.append({"route": route, "model": model, "style": rng.randrange(1 << 30), "reject": False, "boundary_on_grid": b1})
   # potentials whose energy is exactly 0 at a grid point where the slope is not (roots on the grid):
   # a writer that treats "energy == 0" as "switched off" would print a zero force there
-  for i in range(6 if tier == "quick" else 60):
+  for i in range(16 if tier == "quick" else 96):
     nr = rng.choice([8, 12, 24, 44])
     cutoff = (nr - 4) * rng.choice([0.25, 0.125, 0.5])
     delpot = cutoff / (nr - 4)
     k = rng.randint(2, nr - 2)
-    c = rng.choice([2.0, 4.0, 0.5, -8.0])
-    node = {"k": "form", "name": "polynomial", "p": [-c * k * delpot, c]}
-    if i % 2:
-      node = {"k": "sum", "a": [node, {"k": "form", "name": "zero", "p": []}]}
-    route = ["api_class", "api_legacy", "potable", "cli"][i % 4]
+    node, rv = spec.root_node(rng, k * delpot, spec.ROOT_VARIANTS[i % len(spec.ROOT_VARIANTS)])
+    route = ["api_class", "api_legacy", "potable", "cli"][(i + i // 8) % 4]
     model = {"type": "pair", "target": "DL_POLY", "tab": {"nr": nr, "cutoff": cutoff}, "forms": [], "tables": [], "pair": [["Ar", "Ar", node]]}
-    cases.append({"route": route, "model": model, "style": rng.randrange(1 << 30), "reject": False, "root_on_grid": k})
+    cases.append({"route": route, "model": model, "style": rng.randrange(1 << 30), "reject": False, "root_on_grid": k, "root_variant": rv})
   return cases
 
 
@@ -152,6 +149,7 @@ def run_case(case, ctx):
   if case.get("root_on_grid"):
     rows = sorted(set(rows + [case["root_on_grid"] - 1]))
     ctx.cls("root_on_grid")
+    ctx.cls("root_on_grid:" + case.get("root_variant", "?"))
   if case.get("boundary_on_grid"):
     kb = int(round(case["boundary_on_grid"] / float(delpot)))
     rows = sorted(set(rows + [k for k in (kb - 2, kb - 1, kb) if 0 <= k < nr]))
@@ -242,7 +240,7 @@ def run_case(case, ctx):
       where = "block %d (%s-%s) k=%d r=%s route=%s" % (idx, a, b, k, mp.nstr(r, 12), route)
       d_ref = o.deriv(r)
       drift = (k + 4) * mp.mpf("2.3e-16") * r
-      oracle.check_value(ctx, "energy", blk["energies"][i], o, r, where=where, abs_=abs(d_ref) * drift)
+      oracle.check_value(ctx, "energy", blk["energies"][i], o, r, where=where, abs_=abs(d_ref) * drift, fmt="dlpoly_table")
       if oracle.on_break(r, o.breaks, 1e-9) and o.analytic:
         # a grid point on a range boundary: energy and force must come from the SAME branch of V.
         # If the printed energy identifies one side, the force has to be the derivative of that side.
@@ -276,7 +274,7 @@ def run_case(case, ctx):
       except Exception:
         d2 = 0
       slack += (abs(d_ref) + r * d2) * drift
-      oracle.check_token(ctx, "force", blk["forces"][i], f_ref, o.dscale(r) * r, rel=1e-8, abs_=slack, where=where, mag=o.dmag(r) * r)
+      oracle.check_token(ctx, "force", blk["forces"][i], f_ref, o.dscale(r) * r, rel=1e-8, abs_=slack, where=where, mag=o.dmag(r) * r, fmt="dlpoly_table")
   ctx.nontrivial(any_force)
   if pots is not None:
     ev = log.events
